@@ -559,6 +559,8 @@ func runC01(c *Ctx) {
 	checkNormalizeArgs(c)
 	c.Rule("R01k", ruleTextFKActions, 4)
 	checkFKActionGuards(c, "R01k", []string{pSqlite, pMysql, pPostgres})
+	c.Rule("R01m", ruleTextPartOrdinal, 2)
+	checkPartOrdinal(c, "R01m")
 	c.Rule("R01l", ruleTextGeneratedSkipped, 1)
 	checkGeneratedSkipped(c, "R01l")
 	c.Rule("R01j", ruleTextSQLText, 6)
